@@ -96,6 +96,14 @@ let abstract (max : Model.z) (evs : string list) : aev list =
     | [ "close-end" ] -> Some ACloseEnd
     | [ "connclose" ] -> Some AConnClose
     | [ "readerr"; _ ] -> Some AReadErr
+    | "observe" :: _ :: rest ->
+        let k = sample_kv (String.concat "/" rest) in
+        let g x = try List.assoc x k with Not_found -> "" in
+        let code = (match g "err" with
+                    | "nil" -> 0 | "eof" -> 1 | "ueof" -> 2 | "packetizer" -> 3 | "decode" -> 4 | "injected" -> 5 | "op" -> 6 | "codec" -> 7
+                    | _ -> 8) in
+        Some (AObserve (g "done" = "1", g "connected" = "1", zc code))
+    | "watch-violation" :: _ -> Some AWatchViolation
     | "sample" :: _ :: rest ->
         let k = sample_kv (String.concat "/" rest) in
         let g x = try List.assoc x k with Not_found -> "" in
